@@ -13,6 +13,18 @@ NOTES = {
  "C04-r2-2": "caught after strengthening: an untitled inline link to the destination of a titled definition (added to SPANS/REFS)",
  "C10-r2-1": "caught after strengthening: lists never had empty items (added to gen_docs)",
  "C12-r2-2": "caught after strengthening: code blocks never held a tag-only line next to an indented list line (added to gen_docs)",
+ "C08-2": "caught after strengthening: first recorded as caught, but that run had failed on a stale build (0.6); really missed - no sentence ended next to a quote in semantic mode (tokens added to gen_quote_text)",
+ "C07-r2-1": "caught after strengthening: bodies after frontmatter were never uniformly indented or preceded by blank lines (added to gen_case)",
+ "C08-r2-1": "caught after strengthening: no escaped period after digits at the start of a continuation line (tokens added)",
+ "C08-r2-2": "caught after strengthening: the oracle found tags with the implementation's own TEMPLATE_TAG_PATTERN, which the change had altered; it now uses a pattern written from the property text, and the generator has tags holding '%', '}' and '-'",
+ "C13-r2-1": "caught (patch rebased onto fix 409e762): the class-level dict is of a kind the inventory certificate does not cover, and the new definer/user document pair shows the leak",
+ "C13-r2-2": "caught after strengthening: the inventory scan now lists assignments through cls / type(self) / ClassName inside methods (class-attr-written: certificate fails); documents with differently styled fences added for the schedules",
+ "C14-r2-1": "caught after strengthening: no CRLF file among the scenarios and snapshots were read with newline translation (now bytes); the write after the rename shows in the syscall trace correspondence",
+ "C14-r2-2": "caught after strengthening: faults were only failing or killed syscalls; runs under a real file-size limit (RLIMIT_FSIZE, several limits below the new size) give the short write",
+ "C15-r2-1": "caught after strengthening: files were compared after newline translation and no document was an already formatted CRLF file; a section comparing bytes of every entry point on documents whose bytes matter was added (it also found D-80)",
+ "C15-r2-2": "caught after strengthening: the expected text of each file was computed in the same process in the same order as the run; it is now computed after a neutral document, and the three files are arranged so that one ends in a heading and the next starts with a definition",
+ "C17-r2-2": "caught after strengthening: no existing file or directory had a glob metacharacter in its name (added to treegen)",
+ "C18-r2-2": "caught after strengthening: the check only drove the FileResolver API; a section running the command line with and without --no-respect-gitignore under config files was added",
 }
 rows = []
 for d in sorted(glob.glob('/verif/seeded/*/')):
@@ -32,7 +44,7 @@ for d in sorted(glob.glob('/verif/seeded/*/')):
 n = len(rows)
 tbl = "| id | seeded change (one line) | check | result |\n|---|---|---|---|\n" + "\n".join(rows)
 first = sum(1 for r in rows if 'caught as it stood' in r)
-tbl += (f"\n\n{n} changes from 28 sub-agent runs (round 1: two per property, 36; round 2, asked for subtler changes different from round 1: 20), each confirmed: "
+tbl += (f"\n\n{n} changes from 36 sub-agent runs (round 1: two per property, 36; round 2, asked for subtler changes different from round 1: 20 for C01-C06, C09-C12 and 16 for C07, C08, C13-C18), each confirmed: "
         "the patch applies to /repo, the 302 tests pass with it, the agent's demonstration exits 1 with it and 0 without it. "
         f"{first} were reported by the property's quick check as it stood; the others were missed at first and are caught after the named strengthening of a "
         "generator (no oracle was loosened or special-cased), except C03-r2-1, which only the C01 check sees. `seeded/<id>/result.json` holds the last run of each.")
